@@ -26,12 +26,15 @@ def fl(nd) -> float:
 
 
 # ---- caller tables ---------------------------------------------------------------------------------------------
-def make_table(columns: dict[str, np.ndarray], cols, box: str):
-    """The caller's table holding exactly `cols` (other names get a positive filler column)."""
+def make_table(columns: dict[str, np.ndarray], cols, box: str, int_cols=()):
+    """The caller's table holding exactly `cols` (other names get a positive filler column).  int_cols: columns whose (whole-
+    number) values are stored in an integer array, as a csv reader does."""
     n = len(next(iter(columns.values())))
     data = {}
     for k in sorted(cols):
         data[k] = np.array(columns[k], dtype=np.float64) if k in columns else np.linspace(1.0, 2.0, n)
+        if k in int_cols and k in columns:
+            data[k] = data[k].astype(np.int64)
     if box == "df":
         return pd.DataFrame(data)
     return data
@@ -222,6 +225,12 @@ def pi_candidates(rng: np.random.Generator, p: np.ndarray, lo_idx: int = 0) -> t
               float(p[min(lo_idx + 1, len(p) - 1)])]
     inside += [float(x) for x in rng.uniform(a, b, 4)]
     inside += [float(0.5 * (p[i] + p[i + 1])) for i in rng.integers(lo_idx, len(p) - 1, 2)]
+    # whole-number pressures that are not table pressures but happen to be row numbers of the table (505 psi on a 10-psi table with
+    # more than 505 rows): a value is looked up among the pressures, never among the row labels
+    nodes = {float(x) for x in p}
+    whole = [q for q in range(int(np.ceil(a)) + 1, min(int(b), len(p) - 1)) if float(q) not in nodes]
+    if whole:
+        inside += [float(whole[int(i)]) for i in rng.integers(0, len(whole), 2)]
     outside = [float(np.nextafter(p[0], -np.inf)), float(np.nextafter(b, np.inf)), 2.0 * b + 1.0, -1.0, 1e300, -1e300]
     return inside, outside
 
